@@ -30,6 +30,10 @@ def _violations_of(engine, script, pid):
         from sim import ttsim
 
         return ttsim.run_session(script["seed"], pid, script.get("tier", "quick"), script)["violations"]
+    if engine == "distsim":
+        from sim import distsim
+
+        return distsim.run_session(script["seed"], pid, script.get("tier", "quick"), script)["violations"]
     raise ValueError(engine)
 
 
